@@ -116,7 +116,14 @@ def update(h):
     npts = h.choice('npts', SHAPES if THOROUGH else SMALL)
     extra = h.choice('extra_entries', [0, 2])
     w, x = _wx(h, npts)
-    c = h.call(h.get(D + '::compose'), h.clist(x), h.clist(w))
+    shared = h.choice('factors_are_one_shared_measure_object', [False, True]) if len(set(npts)) == 1 and len(npts) > 1 else False
+    if shared:
+        # product_measure([m] * k): the slots hold the SAME measure; update addresses slots, not objects
+        one = h.call(h.get(D + '::compose'), h.clist(x[:1]), h.clist(w[:1]))
+        m = h.ev('c[0]', c=one)
+        c = h.call(h.get(D + '::product_measure'), h.clist([m] * len(npts)))
+    else:
+        c = h.call(h.get(D + '::compose'), h.clist(x), h.clist(w))
     w2, x2 = _wx(h, npts, 'n')
     W2, X2 = h.clist(w2), h.clist(x2)
     params = []
